@@ -36,6 +36,14 @@ pub fn case_roundtrip(va: &dyn VariantApi, bytes: &[u8], st: &CaseStats) -> Resu
     let v = va.v();
     let h = va.try_from_array(bytes).map_err(|e| format!("{}: TryFrom rejected {} with {:?}", v.name, hex(bytes), e))?;
     let stored = store_vec(h.as_ref(), v.size())?;
+    // "the text is always exactly the advertised length": whatever formatter flags the caller uses
+    let plain = h.display();
+    for (spec, text) in h.display_flags() {
+        st.eval();
+        if text != plain {
+            return Err(format!("{}: format!(\"{}\", h) = {:?} but Display without flags gives {:?} (advertised length {})", v.name, spec, text, plain, v.len_str()));
+        }
+    }
     let mut with_version_text = Vec::new();
     for (p, with) in [(Prefix::Empty, false), (Prefix::WithVersion, true)] {
         let want_len = if with { v.len_str() } else { v.len_hex() };
